@@ -2,6 +2,8 @@
 """Systematic single-site mutation campaign against the checkers (an evaluation tool, not a registered check).
 
   tools/mutate.py gen   OUT.jsonl              enumerate mutants of the files the properties are anchored in
+  tools/mutate.py gen2  OUT.jsonl              second operator family (sibling calls / names / attributes, dropped copies and keywords,
+                                               swapped tuple elements, boolean connectives, shifted indices and ranges)
   tools/mutate.py check OUT.jsonl RES.jsonl    run, in-process, the checks of the properties anchored in the mutated file
   tools/mutate.py tests RES.jsonl TST.jsonl    for mutants no check reported: run the test files that exercise the mutated file
                                                (scratch copies under $MUT_SCRATCH, default /tmp/scratch/mut)
@@ -234,14 +236,178 @@ def mutants_of(rel, src):
     return out
 
 
-def cmd_gen(out_path):
+# second operator family: substitutions a reviewer would not spot at a glance (sibling functions, sibling names, dropped copies,
+# swapped tuple elements, augmented-assignment operators, boolean connectives, dropped keywords, shifted indices)
+CALL_SIBLINGS = {"exp": ["log", "expm1"], "log": ["exp", "log1p"], "sqrt": ["square"], "min": ["max"], "max": ["min"],
+                 "argmin": ["argmax"], "argmax": ["argmin"], "floor": ["ceil"], "ceil": ["floor"], "zeros": ["ones"], "ones": ["zeros"],
+                 "cumsum": ["cumprod"], "maximum": ["minimum"], "minimum": ["maximum"], "sum": ["prod", "mean"], "mean": ["sum", "median"],
+                 "std": ["var"], "var": ["std"], "log1p": ["log"], "expm1": ["exp"], "append": ["extend"], "extend": ["append"],
+                 "any": ["all"], "all": ["any"], "argsort": ["sort"], "sort": ["argsort"], "searchsorted": [], "abs": [], "dot": ["outer"],
+                 "random": ["normal"], "normal": ["random"], "uniform": ["normal"], "cosh": ["sinh"], "sinh": ["cosh"], "erf": ["erfc"],
+                 "erfc": ["erf"], "zeros_like": ["ones_like"], "full": [], "floor_divide": ["divide"], "isfinite": ["isnan"],
+                 "less": ["greater"], "greater": ["less"], "where": [], "diag": [], "cho_solve": [], "solve_triangular": [],
+                 "logaddexp": ["add"], "log2": ["log"], "trapz": ["sum"], "ptp": ["max"], "round": ["floor"], "sign": ["abs"]}
+COPY_FUNCS = ("copy", "deepcopy", "array", "abs", "sqrt", "squeeze", "ravel", "flatten", "float", "int", "list", "tuple", "sorted", "atleast_1d")
+
+
+def mutants2_of(rel, src):
+    tree = ast.parse(src)
+    ex = _excluded_regions(tree)
+    out = []
+
+    def add(node, new_node_or_text, op, func, stmt=False):
+        text = new_node_or_text if isinstance(new_node_or_text, str) else ast.unparse(new_node_or_text)
+        if not stmt and not isinstance(new_node_or_text, str):
+            text = "(" + text + ")"
+        try:
+            new_src = _splice(src, node, text)
+            ast.parse(new_src)
+        except Exception:
+            return
+        if new_src == src:
+            return
+        out.append({"file": rel, "func": func, "line": node.lineno, "op": op,
+                    "before": ast.unparse(node)[:120], "after": text[:120], "_src": new_src})
+
+    def visit(fn, qual):
+        if any(k in fn.name for k in SKIP_FUNCS):
+            return
+        # names by role: self attributes read, local names read
+        self_attrs = sorted({n.attr for n in ast.walk(fn) if isinstance(n, ast.Attribute) and isinstance(n.value, ast.Name)
+                             and n.value.id == "self" and isinstance(n.ctx, ast.Load)})
+        for st in ast.walk(fn):
+            if id(st) in ex or not isinstance(st, ast.stmt) or isinstance(st, (ast.FunctionDef, ast.ClassDef)):
+                continue
+            if isinstance(st, (ast.If, ast.While, ast.For, ast.With, ast.Try)):
+                exprs = [getattr(st, "test", None) or getattr(st, "iter", None)]
+            else:
+                exprs = [st]
+            for e in exprs:
+                if e is None:
+                    continue
+                loads = [n for n in ast.walk(e) if isinstance(n, ast.Name) and isinstance(n.ctx, ast.Load) and id(n) not in ex]
+                names = []
+                for n in loads:
+                    if n.id not in names:
+                        names.append(n.id)
+                callee = {id(n.func) for n in ast.walk(e) if isinstance(n, ast.Call)}
+                # NAME-SWAP: a name read in a statement replaced by another name read in the same statement
+                for n in loads:
+                    if id(n) in callee or n.id == "self":
+                        continue
+                    for other in names:
+                        if other != n.id and other != "self" and not any(id(c) in callee and c.id == other for c in loads):
+                            add(n, ast.Name(id=other, ctx=ast.Load()), "NAME-SWAP", qual)
+                            break
+                # ATTR-SWAP: self.a read in a statement replaced by another self attribute read in the same statement
+                attrs = [n for n in ast.walk(e) if isinstance(n, ast.Attribute) and isinstance(n.value, ast.Name) and n.value.id == "self"
+                         and isinstance(n.ctx, ast.Load) and id(n) not in callee and id(n) not in ex]
+                anames = []
+                for n in attrs:
+                    if n.attr not in anames:
+                        anames.append(n.attr)
+                for n in attrs:
+                    for other in anames:
+                        if other != n.attr:
+                            m = copy.deepcopy(n)
+                            m.attr = other
+                            add(n, m, "ATTR-SWAP", qual)
+                            break
+        for n in ast.walk(fn):
+            if id(n) in ex or not hasattr(n, "lineno"):
+                continue
+            if isinstance(n, (ast.FunctionDef, ast.ClassDef)) and n is not fn:
+                continue
+            if isinstance(n, ast.Call):
+                f = n.func
+                last = f.attr if isinstance(f, ast.Attribute) else (f.id if isinstance(f, ast.Name) else None)
+                for alt in CALL_SIBLINGS.get(last, []):
+                    m = copy.deepcopy(n)
+                    if isinstance(m.func, ast.Attribute):
+                        m.func.attr = alt
+                    else:
+                        m.func.id = alt
+                    add(n, m, f"CALL {last}->{alt}", qual)
+                if last in COPY_FUNCS and len(n.args) + (1 if isinstance(f, ast.Attribute) and not n.args else 0) == 1 and not n.keywords:
+                    inner = n.args[0] if n.args else f.value
+                    add(n, copy.deepcopy(inner), f"UNWRAP {last}", qual)
+                for k in n.keywords:
+                    if k.arg is not None and k.arg not in ("axis", "lower"):
+                        m = copy.deepcopy(n)
+                        m.keywords = [k2 for k2 in m.keywords if k2.arg != k.arg]
+                        add(n, m, f"KW-DROP {k.arg}", qual)
+                if last == "range" and len(n.args) in (1, 2):
+                    m = copy.deepcopy(n)
+                    m.args[-1] = ast.BinOp(left=m.args[-1], op=ast.Sub(), right=ast.Constant(value=1))
+                    add(n, m, "RANGE stop-1", qual)
+                    if len(n.args) == 2:
+                        m = copy.deepcopy(n)
+                        m.args = m.args[1:]
+                        add(n, m, "RANGE start-drop", qual)
+                    else:
+                        m = copy.deepcopy(n)
+                        m.args = [ast.Constant(value=1)] + m.args
+                        add(n, m, "RANGE start=1", qual)
+            elif isinstance(n, ast.BoolOp):
+                m = copy.deepcopy(n)
+                m.op = ast.Or() if isinstance(n.op, ast.And) else ast.And()
+                add(n, m, "BOOL and<->or", qual)
+                for k in range(len(n.values)):
+                    rest = [copy.deepcopy(v) for j, v in enumerate(n.values) if j != k]
+                    m = rest[0] if len(rest) == 1 else ast.BoolOp(op=copy.deepcopy(n.op), values=rest)
+                    add(n, m, f"BOOL drop#{k}", qual)
+            elif isinstance(n, ast.AugAssign):
+                alt = {ast.Add: ast.Sub, ast.Sub: ast.Add, ast.Mult: ast.Div, ast.Div: ast.Mult}.get(type(n.op))
+                if alt is not None:
+                    m = copy.deepcopy(n)
+                    m.op = alt()
+                    add(n, m, f"AUG {type(n.op).__name__}->{alt.__name__}", qual, stmt=True)
+                m = ast.Assign(targets=[copy.deepcopy(n.target)], value=copy.deepcopy(n.value), lineno=n.lineno)
+                add(n, m, "AUG ->=", qual, stmt=True)
+            elif isinstance(n, ast.Assign) and len(n.targets) == 1 and isinstance(n.targets[0], ast.Tuple) and len(n.targets[0].elts) >= 2 \
+                    and all(isinstance(x, (ast.Name, ast.Attribute)) for x in n.targets[0].elts[:2]):
+                m = copy.deepcopy(n)
+                t = m.targets[0].elts
+                t[0], t[1] = t[1], t[0]
+                add(n, m, "UNPACK swap", qual, stmt=True)
+            elif isinstance(n, ast.Return) and isinstance(n.value, ast.Tuple) and len(n.value.elts) >= 2 \
+                    and ast.dump(n.value.elts[0]) != ast.dump(n.value.elts[1]):
+                m = copy.deepcopy(n)
+                t = m.value.elts
+                t[0], t[1] = t[1], t[0]
+                add(n, m, "RETURN swap", qual, stmt=True)
+            elif isinstance(n, ast.Subscript) and not isinstance(n.slice, (ast.Slice, ast.Tuple)) and isinstance(n.ctx, ast.Load) \
+                    and isinstance(n.slice, (ast.Name, ast.BinOp)):
+                for d, tag in ((ast.Add, "+1"), (ast.Sub, "-1")):
+                    m = copy.deepcopy(n)
+                    m.slice = ast.BinOp(left=m.slice, op=d(), right=ast.Constant(value=1))
+                    add(n, m, f"INDEX {tag}", qual)
+            elif isinstance(n, ast.Subscript) and isinstance(n.slice, ast.Tuple) and len(n.slice.elts) == 2 and isinstance(n.ctx, ast.Load) \
+                    and ast.dump(n.slice.elts[0]) != ast.dump(n.slice.elts[1]):
+                m = copy.deepcopy(n)
+                m.slice.elts[0], m.slice.elts[1] = m.slice.elts[1], m.slice.elts[0]
+                add(n, m, "INDEX transpose", qual)
+            elif isinstance(n, ast.Return) and n.value is not None and isinstance(n.value, ast.Name):
+                pass
+
+    for st in tree.body:
+        if isinstance(st, ast.FunctionDef):
+            visit(st, st.name)
+        elif isinstance(st, ast.ClassDef):
+            for m in st.body:
+                if isinstance(m, ast.FunctionDef):
+                    visit(m, f"{st.name}.{m.name}")
+    return out
+
+
+def cmd_gen(out_path, family=1):
     fp = file_props()
     n = 0
     with open(out_path, "w") as f:
         for rel in sorted(fp):
             src = open(os.path.join(REPO, rel)).read()
             seen = set()
-            for m in mutants_of(rel, src):
+            for m in (mutants_of if family == 1 else mutants2_of)(rel, src):
                 key = (m["line"], m["op"], m["before"], m["after"])
                 if key in seen:
                     continue
@@ -398,6 +564,8 @@ if __name__ == "__main__":
         sys.exit(0)
     if cmd == "gen":
         cmd_gen(sys.argv[2])
+    elif cmd == "gen2":
+        cmd_gen(sys.argv[2], family=2)
     elif cmd == "check":
         cmd_check(sys.argv[2], sys.argv[3], int(os.environ.get("MUT_JOBS", "14")))
     elif cmd == "tests":
